@@ -90,7 +90,9 @@ func drawScenario(t *rapid.T, c *hx.Case) scenario {
 		c.Op("breaker rule %+v", *r)
 	case mHotspot:
 		r := &hotspot.Rule{ID: "r", Resource: "a", ParamIndex: 0, Threshold: int64(rapid.IntRange(1, 3).Draw(t, "T")), DurationInSec: int64(rapid.IntRange(1, 3).Draw(t, "D"))}
-		switch rapid.IntRange(0, 2).Draw(t, "hotKind") {
+		switch rapid.IntRange(0, 3).Draw(t, "hotKind") {
+		case 3:
+			r.MetricType, r.ControlBehavior = hotspot.Concurrency, hotspot.Throttling
 		case 0:
 			r.MetricType, r.ControlBehavior, r.BurstCount = hotspot.QPS, hotspot.Reject, int64(rapid.IntRange(0, 2).Draw(t, "burst"))
 		case 1:
@@ -460,7 +462,7 @@ func TestModifiedRuleKeepsStatistics(t *testing.T) {
 	hx.Check(t, hx.N{Quick: 7500, Thorough: 80000}, func(t *rapid.T, c *hx.Case) {
 		t0 := hx.Epoch + uint64(rapid.IntRange(0, 999).Draw(t, "t0"))
 		hx.Reset(t0)
-		switch rapid.IntRange(0, 2).Draw(t, "module") {
+		switch rapid.IntRange(0, 4).Draw(t, "module") {
 		case 0: // flow reject: window counts kept
 			T := rapid.IntRange(2, 6).Draw(t, "T")
 			I := uint32(rapid.SampledFrom([]int{0, 2000, 3000, 700}).Draw(t, "I"))
@@ -548,6 +550,88 @@ func TestModifiedRuleKeepsStatistics(t *testing.T) {
 				t.Fatalf("hotspot rule T=%d with value v drained (0 tokens left, refill in 10 s), threshold raised to %d with the same statistic parameters: the next request was admitted, so the per-value counters were not kept", T, r2.Threshold)
 			}
 			c.Class("hotspot")
+		case 3: // hotspot concurrency (either control behaviour): per-value in-flight counters kept
+			T := int64(rapid.IntRange(1, 4).Draw(t, "T"))
+			r := &hotspot.Rule{Resource: "a", MetricType: hotspot.Concurrency, ParamIndex: 0, Threshold: T, SpecificItems: map[interface{}]int64{}}
+			if rapid.Bool().Draw(t, "throttling") {
+				r.ControlBehavior = hotspot.Throttling
+			}
+			hotspot.LoadRules([]*hotspot.Rule{copyHot(r)})
+			k := rapid.IntRange(1, int(T)).Draw(t, "k")
+			var held []*base.SentinelEntry
+			for i := 0; i < k; i++ {
+				e, b := sentinel.Entry("a", sentinel.WithArgs("v"))
+				if b != nil {
+					t.Fatalf("unexpected block while filling")
+				}
+				held = append(held, e)
+			}
+			T2 := int64(rapid.IntRange(1, 6).Draw(t, "T2"))
+			if T2 == T {
+				T2++
+			}
+			r2 := copyHot(r)
+			r2.Threshold = T2
+			if rapid.Bool().Draw(t, "perRes") {
+				hotspot.LoadRulesOfResource("a", []*hotspot.Rule{r2})
+			} else {
+				hotspot.LoadRules([]*hotspot.Rule{r2})
+			}
+			e, blk := sentinel.Entry("a", sentinel.WithArgs("v"))
+			want := int64(k)+1 > T2
+			c.Op("hotspot concurrency (behaviour %v) T=%d: %d in flight for value v, threshold changed to %d -> next blocked=%v (kept counters require %v)", r.ControlBehavior, T, k, T2, blk != nil, want)
+			if e != nil {
+				held = append(held, e)
+			}
+			if (blk != nil) != want {
+				for _, h := range held {
+					h.Exit()
+				}
+				t.Fatalf("hotspot concurrency rule (behaviour %v) T=%d with %d requests of value v in flight, threshold modified to %d (same statistic parameters): next request blocked=%v, with the counters kept it must be %v", r.ControlBehavior, T, k, T2, blk != nil, want)
+			}
+			for _, h := range held {
+				h.Exit()
+			}
+			held = nil
+			for i := int64(0); i <= T2; i++ { // everything has exited: exactly T2 fit again
+				e, blk := sentinel.Entry("a", sentinel.WithArgs("v"))
+				if e != nil {
+					held = append(held, e)
+				}
+				if (blk != nil) != (i == T2) {
+					for _, h := range held {
+						h.Exit()
+					}
+					t.Fatalf("hotspot concurrency rule after the modification and after all requests exited: request %d of value v blocked=%v, threshold %d (the exits of requests admitted before the reload were lost or counted twice)", i+1, blk != nil, T2)
+				}
+			}
+			for _, h := range held {
+				h.Exit()
+			}
+			c.Class("hotspot-concurrency")
+		case 4: // hotspot QPS throttling: the value's last pass time is kept
+			T := int64(rapid.IntRange(1, 4).Draw(t, "T"))
+			r := &hotspot.Rule{Resource: "a", MetricType: hotspot.QPS, ControlBehavior: hotspot.Throttling, ParamIndex: 0, Threshold: T, DurationInSec: 10, MaxQueueingTimeMs: 0, SpecificItems: map[interface{}]int64{}}
+			hotspot.LoadRules([]*hotspot.Rule{copyHot(r)})
+			if e, b := sentinel.Entry("a", sentinel.WithArgs("v")); b != nil {
+				t.Fatalf("first request of a value was rejected")
+			} else {
+				e.Exit()
+			}
+			r2 := copyHot(r)
+			r2.Threshold = T + int64(rapid.IntRange(1, 5).Draw(t, "more"))
+			if rapid.Bool().Draw(t, "perRes") {
+				hotspot.LoadRulesOfResource("a", []*hotspot.Rule{r2})
+			} else {
+				hotspot.LoadRules([]*hotspot.Rule{r2})
+			}
+			hx.C.AddMs(uint64(rapid.IntRange(0, 500).Draw(t, "dt"))) // far less than 10 s / threshold (>= 1.1 s)
+			_, blk := sentinel.Entry("a", sentinel.WithArgs("v"))
+			c.Op("hotspot throttling T=%d: value v passed, threshold raised to %d -> next (no queueing allowed) blocked=%v", T, r2.Threshold, blk != nil)
+			if blk == nil {
+				t.Fatalf("hotspot throttling rule T=%d per 10 s, value v just passed, threshold raised to %d with the same statistic parameters: the next request was admitted at once, so the value's pacing state was not kept", T, r2.Threshold)
+			}
+			c.Class("hotspot-throttling")
 		}
 		c.NonTrivial()
 	})
